@@ -18,11 +18,11 @@ def run(tier):
     cases = res["replay"]
     ops = {(c["path"][-1]["op"]["o"], c["path"][-1]["res"]) for c in cases}
     need = {("subscribe", "started"), ("subscribe", "e32006"), ("accept", "ok"), ("accept", "err"), ("reject", "ok"), ("dropPending", "ok"),
-            ("clone", "ok"), ("dropSink", "ok"), ("unsub", "true"), ("unsub", "false"), ("return", "ok"), ("connClose", "ok")}
+            ("clone", "ok"), ("dropSink", "ok"), ("panic", "ok"), ("unsub", "true"), ("unsub", "false"), ("return", "ok"), ("connClose", "ok")}
     if need - ops:
         raise vlib.ToolError("vacuity: transitions never enumerated: %s" % (need - ops))
     g.replay_flow(rep, "c06", cases, timeout=3000,
-                  nontrivial=lambda c: c["path"][-1]["res"] in ("e32006", "false", "err") or c["path"][-1]["op"]["o"] in ("unsub", "connClose", "dropSink", "return"))
+                  nontrivial=lambda c: c["path"][-1]["res"] in ("e32006", "false", "err") or c["path"][-1]["op"]["o"] in ("unsub", "connClose", "dropSink", "return", "panic"))
     rep.cov["exhaustive"] = True
     rep.cov["rule"] = ("one case per transition of ServerSubs.tla's bounded state graph: the shortest sequence of driver calls reaching the "
                        "pre-state (subscribe, accept, reject, drop-pending, clone / drop a sink, unsubscribe from either connection with a "
